@@ -64,7 +64,7 @@ no Check-limit fault -/
 theorem C13_expiry_retry (env : Dest.Env) (d : Dest.DestSt) (tm : Timer) (rc : RemoteCfg) (crc : List UInt8)
     (t : Tid)
     (htm : d.p.checkTimer = some tm) (hrc : d.p.remoteCfg = some rc) (hexp : tm.timedOut env.now = true)
-    (hmis : Mismatch d crc) (ht : d.p.tid = some t)
+    (hmis : Mismatch d crc) (ht : d.p.tid = some t) (hb : d.state = .busy)
     (hfh : d.faults.lookup ccChecksumFailure = some fhIgnore)
     (hlim : d.p.checkCount + 1 < rc.chkLim) :
     Dest.checkLimitHandling env d =
@@ -75,14 +75,14 @@ theorem C13_expiry_retry (env : Dest.Env) (d : Dest.DestSt) (tm : Timer) (rc : R
   have hd := C14.C14_dest_ignore d ccChecksumFailure fhIgnore t ht hfh (by decide)
   have hl : ¬ rc.chkLim ≤ d.p.checkCount + 1 := by omega
   msimp [Dest.checkLimitHandling, Dest.getP, htm, hrc, hexp, Dest.checksumVerify, h1, h2, h3, h4, hd, hl,
-    Dest.modP, Timer.reset]
+    Dest.modP, Timer.reset, hb]
 
 /-- **Still incomplete at the limit**: Check-limit-reached is declared — exactly at the expiry with
 `counter + 1 ≥ limit`, i.e. the `limit`-th one (`C04_expiry_count`) -/
 theorem C13_expiry_limit (env : Dest.Env) (d : Dest.DestSt) (tm : Timer) (rc : RemoteCfg) (crc : List UInt8)
     (t : Tid)
     (htm : d.p.checkTimer = some tm) (hrc : d.p.remoteCfg = some rc) (hexp : tm.timedOut env.now = true)
-    (hmis : Mismatch d crc) (ht : d.p.tid = some t)
+    (hmis : Mismatch d crc) (ht : d.p.tid = some t) (hb : d.state = .busy)
     (hfh : d.faults.lookup ccChecksumFailure = some fhIgnore)
     (hlim : d.p.checkCount + 1 ≥ rc.chkLim) :
     Dest.checkLimitHandling env d =
@@ -91,7 +91,7 @@ theorem C13_expiry_limit (env : Dest.Env) (d : Dest.DestSt) (tm : Timer) (rc : R
   obtain ⟨h1, h2, h3, h4⟩ := hmis
   have hd := C14.C14_dest_ignore d ccChecksumFailure fhIgnore t ht hfh (by decide)
   have hl : rc.chkLim ≤ d.p.checkCount + 1 := by omega
-  msimp [Dest.checkLimitHandling, Dest.getP, htm, hrc, hexp, Dest.checksumVerify, h1, h2, h3, h4, hd, hl]
+  msimp [Dest.checkLimitHandling, Dest.getP, htm, hrc, hexp, Dest.checksumVerify, h1, h2, h3, h4, hd, hl, hb]
 
 /-- with the default table that fault cancels the transaction with condition Check-limit-reached
 and delivery code Data-incomplete (the delivery code is only ever set to complete by a successful
